@@ -22,6 +22,7 @@ type c14Plan struct {
 	ReadTimeoutS int      `json:"read_timeout_s"`
 	EOFCostMs    int      `json:"eof_cost_ms"`
 	Async        bool     `json:"async,omitempty"`
+	ReadSize     int      `json:"read_size,omitempty"` // every transport read returns at most this many bytes (0 = all)
 	// write failures: request of ReqLen body bytes, the J-th transport write accepts Accept bytes and fails
 	ReqLen int `json:"req_len,omitempty"`
 	J      int `json:"j,omitempty"`
@@ -52,7 +53,7 @@ func c14Build(tier string) []c14Resp {
 	}
 	n := 24
 	if tier == "thorough" {
-		n = 500
+		n = 1500
 	}
 	r := NewRand(Mix(CheckSeed, 0, 1400))
 	var set []c14Resp
@@ -114,6 +115,9 @@ func (c14) Gen(r *Rand, idx int, tier string) interface{} {
 			p.ReadTimeoutS = []int{1, 2, 5}[idx%3]
 			p.EOFCostMs = []int{10, 100, 500, 1000}[(idx/3)%4]
 			p.Async = idx%7 == 3
+			if idx%5 == 2 {
+				p.ReadSize = []int{1, 3, 8, 9}[(idx/5)%4]
+			}
 			return p
 		}
 		i -= n
@@ -185,7 +189,7 @@ func (c14) Run(plan interface{}, schedSeed uint64, replay []simrt.Choice, lenien
 	}
 	cfg := simrt.Config{Seed: schedSeed, Strategy: "uniform", ColdQueueLocks: true, EOFReadCostMs: p.EOFCostMs, Replay: replay, Lenient: lenient, KeepLog: keepLog}
 	got := runResp(cfg, respDelivery{Packets: pk, TermAt: p.K, TermKind: term, TermWithData: withData, Async: p.Async},
-		respClient{QueueSize: 100, ReadTimeoutS: p.ReadTimeoutS, DrainFor: drain})
+		respClient{QueueSize: 100, ReadTimeoutS: p.ReadTimeoutS, DrainFor: drain, ReadSizes: c14ReadSizes(p.ReadSize, len(wire))})
 	out := got.Out
 	StdOutcome(v, base.Out)
 	StdOutcome(v, out)
@@ -316,6 +320,17 @@ func (c14) Run(plan interface{}, schedSeed uint64, replay []simrt.Choice, lenien
 	}
 	v.Sample = map[string]interface{}{"entries": p.Entries, "packets": pktLens(pk), "k": p.K, "kind": p.Kind, "read_timeout_s": p.ReadTimeoutS, "delivered": len(have), "first_error_at": fmt.Sprint(errTime(firstErr))}
 	return v, out
+}
+
+func c14ReadSizes(sz, n int) []int {
+	if sz == 0 {
+		return nil
+	}
+	var rs []int
+	for i := 0; i < 2*n+32; i++ {
+		rs = append(rs, sz)
+	}
+	return rs
 }
 
 func errTime(r *PkgRec) time.Duration {
